@@ -402,6 +402,16 @@ func enumC02(env *engine.Env, yield func(any) bool) {
 			return
 		}
 	}
+	// (b0) a release of zero (stated is stated: -0 / r0 / Release 0)
+	for _, epoch := range []string{"", "2"} {
+		for _, pre := range []string{"", "beta1"} {
+			c := baseMeta()
+			c.Epoch, c.Prerelease, c.Release = epoch, pre, "0"
+			if !emit("version", c) {
+				return
+			}
+		}
+	}
 	// (b) version components
 	for _, v := range []string{"1.2.3", "v1.2.3"} {
 		for _, epoch := range []string{"", "2"} {
